@@ -124,7 +124,8 @@ class Interp(object):
     # ------------------------------------------------------------------------------------------------------
     # declarations
     # ------------------------------------------------------------------------------------------------------
-    def op_func(self, cls, params, name=None, direct=False):
+    def func_kwargs(self, cls, params):
+        """constructor keyword arguments of a class for a parameter dict of the generators"""
         env = self.env
         kw = {k: num(v) for k, v in params.items() if k not in ("partition", "Ls", "v")}
         if cls == "BlockSmoothConvexFunction":
@@ -135,6 +136,11 @@ class Interp(object):
             d = part.get_nb_blocks()
             Ls = (Ls * d)[:d]
             kw = {"partition": part, "L": Ls}
+        return kw
+
+    def op_func(self, cls, params, name=None, direct=False):
+        env = self.env
+        kw = self.func_kwargs(cls, params)
         klass = get_class(cls)
         if direct:
             f = klass(**kw)
